@@ -381,3 +381,62 @@ def native_bodies_mismatch(r, emit_index=0):
         else:
             used.add(hit)
     return bool(info) or len(ins) != len(outs), info
+
+
+# ------------------------------------------------------------------ DWARF route (vreplay dwarf: DWARF synthesised with gimli::write)
+def confirm_dwarf(vio, pid):
+    spec = vio.get('spec')
+    J = vio.get('spec_json')
+    if J is None and spec is not None:
+        import z3
+        model = vio.get('model')
+        if model is None:
+            s = z3.Solver()
+            s.add(*(vio.get('pc') or []))
+            s.check()
+            model = s.model()
+        J = witness.spec_json(spec, model)
+    if J is None:
+        # a minimal three-function module is enough for kernels that do not depend on the module
+        from obligations import c11
+        import z3
+        s = z3.Solver()
+        s.check()
+        J = witness.spec_json(c11.spec_for(3), s.model())
+    opts = dict(vio.get('dwarf_script') or {})
+    pb = vio.get('pad_brtable')
+    if pb:
+        flds = J['funcs'][pb['func']]['ops'][pb['op']]['fields']
+        for k_, v_ in flds.items():
+            if str(v_).startswith('['):
+                flds[k_] = '[' + ', '.join(['0'] * pb['targets']) + ']'
+    res = {}
+    ok = []
+    d = os.path.join(common.BUILD, 'scripts')
+    os.makedirs(d, exist_ok=True)
+    for profile in ('debug', 'release'):
+        p = os.path.join(d, 'dwarf-%d.json' % os.getpid())
+        json.dump(dict({'spec': J, 'version': 4, 'gc': False}, **opts), open(p, 'w'))
+        r = replay.run_vreplay(['dwarf', p], profile)
+        os.remove(p)
+        summ = (r.get('checks') or {}).get('summary') or {}
+        res[profile] = {'status': r.get('status'), 'error': (r.get('error') or '')[:200], 'summary': summ}
+        key = vio['key']
+        if key == 'dwarf.row.file-index-0' or key.endswith('.panic'):
+            ok.append(r.get('status') == 'panic')
+        elif r.get('status') != 'ok':
+            ok.append(None)
+        elif key.split('[')[0] in ('dwarf.low_pc', 'dwarf.high_pc', 'dwarf.seq_base'):
+            ok.append(summ.get('subprogram_mismatches', 0) > 0 or summ.get('row_mismatches', 0) > 0)
+        else:
+            ok.append(summ.get('row_mismatches', 0) > 0 or summ.get('rows_lost_non_nop', 0) > 0 or summ.get('subprogram_mismatches', 0) > 0)
+    path = replay.save_witness(pid, vio['key'], {'route': 'dwarf', 'what': vio['what'], 'script': dict({'spec': J, 'version': 4, 'gc': False}, **opts), 'native': res})
+    vio['replay'] = path
+    if all(x is True for x in ok):
+        vio['reproduced'] = True
+    elif any(x is None for x in ok):
+        vio['reproduced'] = None
+    else:
+        vio['reproduced'] = False
+    for k in ('spec', 'model', 'pc', 'spec_json', 'pad', 'dwarf_script', 'pad_brtable'):
+        vio.pop(k, None)
